@@ -126,6 +126,9 @@ def run(ctx):
                        detail={"nul_tested_offsets": tests, "classified": [(o, l) for o, l, _ in tr.classes]},
                        what="%s tests element %s of the type string for NUL but classifies element %s (%s)" %
                             (q, tests, sorted({o for o, _ in bad}), sorted({str(l) for _, l in bad})))
+            if tr.uses and not tr.classes:
+                ctx.ob("R01.4", "%s:loop(%s) brackets" % (q, cname), False, site=A.where(lp), detail={"element_handed_to": sorted({u_[1] for u_ in tr.uses})},
+                       what="%s walks the type string and hands each element to %s without setting '[' and ']' apart: a bracket is counted as an argument" % (q, sorted({u_[1] for u_ in tr.uses})))
             lits = {l for _, l, _ in tr.classes if isinstance(l, str) and len(l) == 1}
             if lits:
                 seen_sets["%s:loop(%s)@%s" % (q, cname, A.loc(lp)[1])] = (lits, A.where(lp))
